@@ -38,6 +38,7 @@ type verifGhost struct {
 	mtime     time.Time
 	now       time.Time
 	fault     int
+	chunked   bool
 	effFault  int
 	nDownload int
 	pending   bool
@@ -65,6 +66,7 @@ func (*verifEnv) putCache(text string, mtime time.Time) {
 	verifG.exists, verifG.content, verifG.mtime = true, text, mtime
 }
 func (*verifEnv) setFault(f int) { verifG.fault, verifG.effFault = f, f }
+func (*verifEnv) setChunked(c bool) { verifG.chunked = c }
 func (*verifEnv) setNow(t time.Time) {
 	verifG.now = t
 	verifSetClock(t.UnixNano())
@@ -223,5 +225,12 @@ func verifHTTPGet(c *agdhttp.Client, ctx context.Context, u *url.URL) (*http.Res
 		body.failAt = 9
 	}
 	resp.Body = body
+	// net/http contract: ContentLength is the announced length, -1 when unknown
+	resp.ContentLength = int64(len(body.data))
+	if verifG.fault == verifFaultTruncated {
+		resp.ContentLength = 1000
+	} else if verifG.chunked {
+		resp.ContentLength = -1
+	}
 	return resp, nil
 }
